@@ -148,6 +148,53 @@ func propC09(c *ctx) error {
 		}
 	}
 	res.Distribution["operator_pairs_exhaustive"] = cnt
+	// exhaustive: chains of one to three unary operators written without parentheses (a blank only where two equal
+	// signs would otherwise form the ++ / -- token) over operands of every kind; each operator is applied, none cancels
+	{
+		operands := []*Ex{{Op: "lit-int", Text: "1"}, {Op: "lit-int", Text: "0"}, {Op: "lit-float", Text: "1.5"}, {Op: "lit-str", Text: `"a"`},
+			mk("true"), mk("false"), mk("vint"), mk("vuint8"), mk("f64"), mk("f32"), mk("s1"), mk("b1"), mk("vnil")}
+		unOps := []string{"+", "-", "!", "^"}
+		var chains [][]string
+		for _, a := range unOps {
+			chains = append(chains, []string{a})
+			for _, b := range unOps {
+				chains = append(chains, []string{a, b})
+				for _, d := range unOps {
+					chains = append(chains, []string{a, b, d})
+				}
+			}
+		}
+		ucnt := 0
+		for _, ch := range chains {
+			for _, opnd := range operands {
+				e := opnd
+				src := printEx(opnd, nil, 0)
+				for i := len(ch) - 1; i >= 0; i-- {
+					e = &Ex{Op: "un", Text: ch[i], Kids: []*Ex{e}}
+					if (ch[i] == "+" || ch[i] == "-") && strings.HasPrefix(src, ch[i]) {
+						src = " " + src
+					}
+					src = ch[i] + src
+				}
+				for _, full := range []string{src, "(" + src + ") == 1", src + ` + "|"`} {
+					var fe *Ex
+					switch {
+					case full == src:
+						fe = e
+					case strings.HasSuffix(full, "== 1"):
+						fe = &Ex{Op: "bin", Text: "==", Kids: []*Ex{e, {Op: "lit-int", Text: "1"}}}
+					default:
+						fe = &Ex{Op: "bin", Text: "+", Kids: []*Ex{e, {Op: "lit-str", Text: `"|"`}}}
+					}
+					ucnt++
+					if err := run(J{"src": full, "envval": env.frame, "expect": refEval(fe, env.ref).canon()}, false); err != nil {
+						return err
+					}
+				}
+			}
+		}
+		res.Distribution["unary_chains_exhaustive"] = ucnt
+	}
 	// mixed integer / float operands at the edge of float64's exact integer range, every binary operator that
 	// accepts them, both operand orders: the integer operand is converted to float64 first
 	edgeI := []string{"9007199254740991", "9007199254740992", "9007199254740993", "9007199254740995", "9223372036854775807", "4611686018427387905", "16777217"}
